@@ -155,6 +155,9 @@ def main():
                 return _dt.datetime.fromtimestamp(float(clock), tz)
 
     sys.path.insert(0, os.path.dirname(os.path.dirname(os.path.abspath(__file__))))
+    if job.get("cwd_on_sys_path"):
+        # launched as "python -m ariadne_codegen": the working directory is the first entry of the module search path
+        sys.path.insert(0, os.path.abspath(job["cwd"]))
 
     import io
     if job.get("import_cwd"):
